@@ -1,1 +1,463 @@
-/-! STUB — property C14 is not built yet. -/
+import Martian.Lemmas.HttpSpec
+/-!
+C14 — The spec-compliance stack strips hop-by-hop headers, stamps Via and stops loops.
+Only property theorems, non-vacuity examples, and (for the open findings F14b/F14c) the
+counterexample witnesses and the `_partial` theorems live here.
+
+Quantifiers: every header `h : Header` (any number of keys, lines per key, bytes per line —
+"all header multisets"), every request environment `env` (protocol version, proxy name and
+boundary, scheme, host, URL, remote address). Headers are association lists standing for Go's
+`map[string][]string`; `index h k` is `h[k]`, `keys h` the set of keys.
+
+The hop-by-hop list and the order of the stack are the regenerated facts
+`Generated.HttpSpec.hopByHop / requestOrder / responseOrder` (see Model/HttpSpec.lean).
+-/
+namespace Martian.Props.C14
+open Martian Martian.Go Martian.Go.Header Martian.HttpSpec
+
+/-! ## 1. hop-by-hop headers -/
+
+/-- RFC 7230 §6.1 (and the field definitions that say "hop-by-hop"): the fixed set. -/
+def rfcHopByHop : List Bytes := ["Connection", "Keep-Alive", "Proxy-Authenticate", "Proxy-Authorization", "TE", "Trailer",
+  "Transfer-Encoding", "Upgrade"].map strBytes
+
+/-- Finite table check: every RFC hop-by-hop field is in the list literal of the source
+(`Generated.HttpSpec.hopByHop`, regenerated on every run). Deleting one breaks this theorem. -/
+theorem rfc_hop_by_hop_listed : ∀ k ∈ rfcHopByHop, canonKey k ∈ fixedList.map canonKey := by decide
+
+/-- No header the modifier is to remove survives (fixed list or Connection-listed). -/
+theorem hbh_removed (h : Header) (k : Bytes) (hk : k ∈ removedKeys h) : k ∉ keys (removeHopByHop h) :=
+  removed_not_in_keys hk
+
+/-- No header fixed by the HTTP specification survives, whatever else is in the header. -/
+theorem hbh_fixed_removed (h : Header) : ∀ k ∈ rfcHopByHop, canonKey k ∉ keys (removeHopByHop h) := by
+  intro k hk
+  apply removed_not_in_keys
+  have := rfc_hop_by_hop_listed k hk
+  simp only [removedKeys, List.map_append, List.mem_append]
+  exact Or.inr this
+
+/-- No header named in any `Connection` line survives: every comma-separated piece of every
+line, with any white space around it, under its canonical key. -/
+theorem hbh_connection_listed_removed (h : Header) :
+    ∀ line ∈ index h kConnection, ∀ tok ∈ split line comma, canonKey (trimSpace tok) ∉ keys (removeHopByHop h) := by
+  intro line hl tok ht
+  apply removed_not_in_keys
+  simp only [removedKeys, List.map_append, List.mem_append, List.mem_map]
+  refine Or.inl ⟨canonKey (trimSpace tok), ?_, canonKey_idem _⟩
+  simp only [connTokens, List.mem_flatMap, List.mem_map]
+  exact ⟨line, hl, tok, ht, rfl⟩
+
+/-- "In any case": a token that differs from a header name only in letter case denotes the same
+canonical key, i.e. the key under which net/http stores that header. -/
+theorem connection_token_any_case (name tok : Bytes) (hn : name.all validHeaderFieldByte = true)
+    (hc : toLower tok = toLower name) : canonKey tok = canonKey name := by
+  have ht : tok.all validHeaderFieldByte = true := by
+    have h1 : (toLower tok).all validHeaderFieldByte = tok.all validHeaderFieldByte := by
+      simp only [toLower, List.all_map]; congr 1; funext c; simp [valid_toLowerB]
+    have h2 : (toLower name).all validHeaderFieldByte = name.all validHeaderFieldByte := by
+      simp only [toLower, List.all_map]; congr 1; funext c; simp [valid_toLowerB]
+    rw [← h1, hc, h2, hn]
+  rw [← canonKey_toLower tok ht, hc, canonKey_toLower name hn]
+
+/-- Every other header is untouched: the result is exactly the input with the removed keys
+filtered out — nothing added, no value changed, order of values (and of keys) kept. -/
+theorem hbh_others_untouched (h : Header) :
+    removeHopByHop h = h.filter (fun e => !(removedKeys h).contains e.1) ∧
+    ∀ k, k ∉ removedKeys h → index (removeHopByHop h) k = index h k :=
+  ⟨removeHopByHop_eq_filter h, fun _ hk => kept_index hk⟩
+
+/-- Request side of the stack: no hop-by-hop header survives, on every outcome (forwarded,
+flagged or loop). Headers the stack itself stamps are the subject of sections 2 and 3. -/
+theorem stack_request_no_hop_by_hop (env : Env) (h : Header) (k : Bytes)
+    (hk : k ∈ removedKeys h) (hs : k ∉ stampedKeys) : k ∉ keys (stackReq env h).1.hdr := by
+  have hst : k ≠ kVia ∧ k ∉ fwdKeys := by
+    simp only [stampedKeys, fwdKeys, List.mem_cons, List.not_mem_nil, or_false, not_or] at hs ⊢
+    exact ⟨hs.1, hs.2⟩
+  have hA : k ∉ keys (fwdHeader env (removeHopByHop h)) := by
+    intro hm
+    rcases fwd_keys hm with h1 | h1
+    · exact hst.2 h1
+    · exact removed_not_in_keys hk h1
+  have hB : k ∉ keys (framingHeader (fwdHeader env (removeHopByHop h))).1 := fun hm => hA ((framing_other _).2 k hm)
+  rcases stackReq_cases env h with ⟨e, _, hr⟩ | ⟨_, _, hr⟩ | ⟨_, _, hr⟩
+  · rw [hr]; dsimp only; exact hB
+  · rw [hr]; dsimp only; exact hB
+  · rw [hr]
+    dsimp only
+    intro hm
+    rcases mem_keys_set.mp hm with h1 | h1
+    · rw [canon_kVia] at h1; exact hst.1 h1
+    · exact hB h1
+
+/-- Request side of the stack: every header that is neither hop-by-hop nor one the stack
+writes (Via, X-Forwarded-*, Content-Length normalisation) has exactly its original lines. -/
+theorem stack_request_others_untouched (env : Env) (h : Header) (k : Bytes)
+    (hk : k ∉ removedKeys h) (hs : k ∉ stampedKeys) (hcl : k ≠ kCL) :
+    index (stackReq env h).1.hdr k = index h k := by
+  have hst : k ≠ kVia ∧ k ∉ fwdKeys := by
+    simp only [stampedKeys, fwdKeys, List.mem_cons, List.not_mem_nil, or_false, not_or] at hs ⊢
+    exact ⟨hs.1, hs.2⟩
+  have hB : index (framingHeader (fwdHeader env (removeHopByHop h))).1 k = index h k := by
+    rw [(framing_other _).1 k hcl, fwd_index_other hst.2, kept_index hk]
+  rcases stackReq_cases env h with ⟨e, _, hr⟩ | ⟨_, _, hr⟩ | ⟨_, _, hr⟩
+  · rw [hr]; dsimp only; exact hB
+  · rw [hr]; dsimp only; exact hB
+  · rw [hr]
+    dsimp only
+    rw [index_set, canon_kVia, if_neg hst.1]
+    exact hB
+
+/-- Response side of the stack without a loop: status and error-free, hop-by-hop headers gone,
+everything else exactly as it was (by `hbh_others_untouched`). -/
+theorem stack_response_no_loop (s : ResS) :
+    stackRes false s = ({ s with hdr := removeHopByHop s.hdr }, []) ∧
+    (∀ k ∈ removedKeys s.hdr, k ∉ keys (stackRes false s).1.hdr) ∧
+    (∀ k, k ∉ removedKeys s.hdr → index (stackRes false s).1.hdr k = index s.hdr k) ∧
+    (stackRes false s).1.status = s.status := by
+  have hu : stackRes false s = ({ s with hdr := removeHopByHop s.hdr }, []) := by
+    rw [stackRes_unfold]; simp
+  refine ⟨hu, ?_, ?_, ?_⟩
+  · intro k hk; rw [hu]; dsimp only; exact removed_not_in_keys hk
+  · intro k hk; rw [hu]; dsimp only; exact kept_index hk
+  · rw [hu]
+
+/-! ## 2. Via: exactly one entry appended last; loops -/
+
+/-- The loop test is "some comma-separated element of the Via chain has this instance's
+pseudonym (`name-boundary`) as its second white-space-separated field". -/
+theorem loop_detected_iff_instance_named (via tag : Bytes) :
+    hasLoop via tag = true ↔ ∃ e ∈ split via comma, field2 (trimSpace e) = some tag := by
+  simp [hasLoop, List.any_eq_true]
+
+/-- The via modifier alone: a loop is reported (error, round trip skipped, context key set,
+header untouched) exactly when the joined Via lines name this instance. -/
+theorem via_loop_iff (env : Env) (s : RS) :
+    ((viaReq env s).2 = some .loop ↔ hasLoop (join (index s.hdr kVia) commaSp) (tag env) = true) ∧
+    (hasLoop (join (index s.hdr kVia) commaSp) (tag env) = true →
+      (viaReq env s).1.skip = true ∧ (viaReq env s).1.loopKey = true ∧ (viaReq env s).1.hdr = s.hdr) := by
+  cases hl : hasLoop (join (index s.hdr kVia) commaSp) (tag env) with
+  | true => rw [viaReq_loop env s hl]; simp
+  | false => rw [viaReq_noloop env s hl]; simp
+
+/-- The via modifier alone, no loop: the header gets exactly ONE `Via` line, which is all the
+existing lines joined by ", " followed by ", " and this proxy's entry (or just the entry when
+there was none); no other header changes, no error, no skipping. -/
+theorem via_exactly_one_appended_last (env : Env) (s : RS)
+    (hl : hasLoop (join (index s.hdr kVia) commaSp) (tag env) = false) :
+    (viaReq env s).2 = none ∧ (viaReq env s).1.skip = s.skip ∧
+    index (viaReq env s).1.hdr kVia = [viaLine env (index s.hdr kVia)] ∧
+    (∀ k, k ≠ kVia → index (viaReq env s).1.hdr k = index s.hdr k) := by
+  rw [viaReq_noloop env s hl]
+  refine ⟨rfl, rfl, ?_, ?_⟩
+  · show index (set _ kVia _) kVia = _
+    rw [index_set, canon_kVia, if_pos rfl]
+  · intro k hk
+    dsimp only
+    rw [index_set, canon_kVia, if_neg hk]
+
+/-- Shape of the line: existing chain first, this proxy's entry last. -/
+theorem via_line_shape (env : Env) (old : List Bytes) :
+    (join old commaSp = [] → viaLine env old = viaEntry env) ∧
+    (join old commaSp ≠ [] → viaLine env old = join old commaSp ++ commaSp ++ viaEntry env) := by
+  constructor <;> intro h <;> simp [viaLine, h]
+
+/-- The Via chain the via modifier sees inside the stack: the original one unless `Via` itself
+was named in `Connection` (then hop-by-hop removal has deleted it). -/
+def effectiveVia (h : Header) : List Bytes := if kVia ∈ removedKeys h then [] else index h kVia
+
+theorem stack_via_seen (env : Env) (h : Header) :
+    index (framingHeader (fwdHeader env (removeHopByHop h))).1 kVia = effectiveVia h := by
+  have hk := kne
+  have hv : kVia ∉ fwdKeys := by
+    simp only [fwdKeys, List.mem_cons, List.not_mem_nil, or_false, not_or]
+    exact ⟨hk.2.2.2.2.2.2.1, hk.2.2.2.2.2.2.2.1, hk.2.2.2.2.2.2.2.2.1, hk.2.2.2.2.2.2.2.2.2.1⟩
+  rw [(framing_other _).1 kVia hk.2.2.2.2.2.2.2.2.2.2.1, fwd_index_other hv]
+  unfold effectiveVia
+  split
+  · next hm => exact removed_index hm
+  · next hm => exact kept_index hm
+
+/-- Stack: a request that is forwarded without error carries exactly one `Via` line: the
+existing chain followed by this proxy's entry. -/
+theorem stack_via_exactly_one_appended_last (env : Env) (h : Header) (hok : (stackReq env h).2 = []) :
+    index (stackReq env h).1.hdr kVia = [viaLine env (effectiveVia h)] ∧ (stackReq env h).1.skip = false := by
+  rcases stackReq_cases env h with ⟨e, _, hr⟩ | ⟨_, _, hr⟩ | ⟨_, _, hr⟩
+  · rw [hr] at hok; simp at hok
+  · rw [hr] at hok; simp at hok
+  · rw [hr]
+    refine ⟨?_, rfl⟩
+    dsimp only
+    rw [index_set, canon_kVia, if_pos rfl, stack_via_seen]
+
+/-- Stack: a loop is never reported for a request whose Via chain does not name this instance. -/
+theorem stack_no_false_loop (env : Env) (h : Header)
+    (hn : hasLoop (join (index h kVia) commaSp) (tag env) = false) :
+    Err.loop ∉ (stackReq env h).2 ∧ (stackReq env h).1.skip = false := by
+  have hseen : hasLoop (join (index (framingHeader (fwdHeader env (removeHopByHop h))).1 kVia) commaSp) (tag env) = false := by
+    rw [stack_via_seen]
+    unfold effectiveVia
+    split
+    · exact hasLoop_nil _
+    · exact hn
+  rcases stackReq_cases env h with ⟨e, he, hr⟩ | ⟨_, hl, hr⟩ | ⟨_, _, hr⟩
+  · rw [hr]
+    refine ⟨?_, rfl⟩
+    unfold framingHeader at he
+    cases hc : framingCL (fwdHeader env (removeHopByHop h)) with
+    | none => rw [hc] at he; simp at he; subst he; simp
+    | some h1 =>
+      rw [hc] at he
+      rcases framingTE_err h1 with h0 | h0
+      · simp [h0] at he
+      · rw [h0] at he; injection he with he; subst he; simp
+  · rw [hseen] at hl; exact Bool.noConfusion hl
+  · rw [hr]; simp
+
+/-- Response side of the stack for a request on which the loop was detected (context key
+set): the response is turned into a 400 and the loop error is reported. -/
+theorem stack_response_loop_400 (s : ResS) :
+    (stackRes true s).1.status = 400 ∧ (stackRes true s).2 = [.loop] := by
+  rw [stackRes_unfold]; simp
+
+/-- The full loop clause for one header: a Via chain naming this instance ⇒ loop error, round
+trip skipped (never sent upstream), context key set, and hence 400. -/
+def LoopStopped (env : Env) (h : Header) : Prop :=
+  hasLoop (join (index h kVia) commaSp) (tag env) = true →
+    (stackReq env h).2 = [.loop] ∧ sentUpstream (stackReq env h).1 = false ∧
+    (stackReq env h).1.loopKey = true ∧ ∀ res, (stackRes (stackReq env h).1.loopKey res).1.status = 400
+
+/-- What the framing modifier answers inside the stack (after hop-by-hop removal and the
+forwarded modifier). -/
+def stackFramingErr (env : Env) (h : Header) : Option Err := (framingHeader (fwdHeader env (removeHopByHop h))).2
+
+/-- PARTIAL (open findings F14b/F14c): the loop clause holds for every header in which `Via` is
+not itself Connection-listed and which the framing modifier does not flag first. Missing: the
+two excluded classes, for which `loop_counterexample_*` show the clause is false. -/
+theorem loop_stopped_partial (env : Env) (h : Header)
+    (hv : kVia ∉ removedKeys h) (hf : stackFramingErr env h = none) : LoopStopped env h := by
+  intro hn
+  have hseen : hasLoop (join (index (framingHeader (fwdHeader env (removeHopByHop h))).1 kVia) commaSp) (tag env) = true := by
+    rw [stack_via_seen]; unfold effectiveVia; rw [if_neg hv]; exact hn
+  rcases stackReq_cases env h with ⟨e, he, _⟩ | ⟨_, _, hr⟩ | ⟨_, hl, _⟩
+  · unfold stackFramingErr at hf; rw [hf] at he; cases he
+  · rw [hr]
+    refine ⟨rfl, rfl, rfl, ?_⟩
+    intro res
+    exact (stack_response_loop_400 res).1
+  · rw [hseen] at hl; exact Bool.noConfusion hl
+
+/-- When does the framing modifier pass inside the stack? Whenever Content-Length is absent,
+Connection-listed, or its values agree (Transfer-Encoding is always gone by then). -/
+theorem stack_framing_passes (env : Env) (h : Header)
+    (hc : kCL ∈ removedKeys h ∨ index h kCL = [] ∨ clScan (clTokens h) [] ≠ none) : stackFramingErr env h = none := by
+  have hk := kne
+  have hclf : kCL ∉ fwdKeys := by
+    simp only [fwdKeys, List.mem_cons, List.not_mem_nil, or_false, not_or]
+    exact ⟨hk.2.2.2.2.2.2.2.2.2.2.2.1, hk.2.2.2.2.2.2.2.2.2.2.2.2.1, hk.2.2.2.2.2.2.2.2.2.2.2.2.2.1, hk.2.2.2.2.2.2.2.2.2.2.2.2.2.2.1⟩
+  have htef : kTE ∉ fwdKeys := by
+    simp only [fwdKeys, List.mem_cons, List.not_mem_nil, or_false, not_or]
+    exact ⟨hk.2.2.2.2.2.2.2.2.2.2.2.2.2.2.2.1, hk.2.2.2.2.2.2.2.2.2.2.2.2.2.2.2.2.1, hk.2.2.2.2.2.2.2.2.2.2.2.2.2.2.2.2.2.1,
+      hk.2.2.2.2.2.2.2.2.2.2.2.2.2.2.2.2.2.2.1⟩
+  have hte : kTE ∈ removedKeys h := by
+    simp only [removedKeys, List.map_append, List.mem_append]
+    exact Or.inr (by decide)
+  have hte0 : index (fwdHeader env (removeHopByHop h)) kTE = [] := by
+    rw [fwd_index_other htef]; exact removed_index hte
+  have hcl : index (fwdHeader env (removeHopByHop h)) kCL = if kCL ∈ removedKeys h then [] else index h kCL := by
+    rw [fwd_index_other hclf]
+    split
+    · next hm => exact removed_index hm
+    · next hm => exact kept_index hm
+  have htok : clTokens (fwdHeader env (removeHopByHop h)) = if kCL ∈ removedKeys h then [] else clTokens h := by
+    unfold clTokens; rw [hcl]; split <;> rfl
+  unfold stackFramingErr framingHeader
+  cases hcs : framingCL (fwdHeader env (removeHopByHop h)) with
+  | none =>
+    exfalso
+    unfold framingCL at hcs
+    rw [hcl, htok] at hcs
+    by_cases hm : kCL ∈ removedKeys h
+    · simp [hm] at hcs
+    · simp only [hm, if_false] at hcs
+      rcases hc with h1 | h1 | h1
+      · exact hm h1
+      · simp [h1] at hcs
+      · split at hcs
+        · split at hcs
+          · next hn => exact h1 hn
+          · cases hcs
+        · cases hcs
+  | some h1 =>
+    have := (framingCL_some hcs).1 kTE hk.2.2.2.2.2.2.2.2.2.2.2.2.2.2.2.2.2.2.2.1
+    have h10 : index h1 kTE = [] := by rw [this]; exact hte0
+    show (framingTE h1).2 = none
+    rw [framingTE_absent h10]
+
+/-! ## 3. X-Forwarded-* -/
+
+/-- The forwarded modifier: `X-Forwarded-For` becomes one line, all existing lines joined by
+", " followed by the client address (the host part of RemoteAddr). -/
+theorem xff_appends (env : Env) (h : Header) :
+    index (fwdHeader env h) kXFF = [xffLine env (index h kXFF)] ∧
+    (join (index h kXFF) commaSp = [] → xffLine env (index h kXFF) = clientOf env.remote) ∧
+    (join (index h kXFF) commaSp ≠ [] →
+      xffLine env (index h kXFF) = join (index h kXFF) commaSp ++ commaSp ++ clientOf env.remote) := by
+  refine ⟨fwd_index_xff env h, ?_, ?_⟩ <;> intro hv <;> simp [xffLine, hv]
+
+/-- `X-Forwarded-Proto`, `-Host`, `-Url`: preserved (all lines) when a first value exists, else set
+to the request's scheme / Host / URL. -/
+theorem proto_host_url_preserved_or_set (env : Env) (h : Header) :
+    (index (fwdHeader env h) kXFProto = if get h kXFProto = [] then [env.scheme] else index h kXFProto) ∧
+    (index (fwdHeader env h) kXFHost = if get h kXFHost = [] then [env.host] else index h kXFHost) ∧
+    (index (fwdHeader env h) kXFUrl = if get h kXFUrl = [] then [env.url] else index h kXFUrl) :=
+  ⟨fwd_index_proto env h, fwd_index_host env h, fwd_index_url env h⟩
+
+/-- The forwarded modifier touches nothing else. -/
+theorem fwd_others_untouched (env : Env) (h : Header) (k : Bytes) (hk : k ∉ fwdKeys) :
+    index (fwdHeader env h) k = index h k := fwd_index_other hk
+
+/-- Stack, every outcome: `X-Forwarded-For` is the surviving existing chain followed by the
+client address (existing = the original lines unless the header was Connection-listed). -/
+theorem stack_xff (env : Env) (h : Header) :
+    index (stackReq env h).1.hdr kXFF =
+      [xffLine env (if kXFF ∈ removedKeys h then [] else index h kXFF)] := by
+  have hk := kne
+  have hB : index (framingHeader (fwdHeader env (removeHopByHop h))).1 kXFF =
+      [xffLine env (if kXFF ∈ removedKeys h then [] else index h kXFF)] := by
+    rw [(framing_other _).1 kXFF (Ne.symm hk.2.2.2.2.2.2.2.2.2.2.2.1), fwd_index_xff]
+    congr 2
+    split
+    · next hm => exact removed_index hm
+    · next hm => exact kept_index hm
+  rcases stackReq_cases env h with ⟨e, _, hr⟩ | ⟨_, _, hr⟩ | ⟨_, _, hr⟩
+  · rw [hr]; dsimp only; exact hB
+  · rw [hr]; dsimp only; exact hB
+  · rw [hr]
+    dsimp only
+    rw [index_set, canon_kVia, if_neg (Ne.symm hk.2.2.2.2.2.2.1)]
+    exact hB
+
+/-! ## 4. framing errors -/
+
+/-- A Transfer-Encoding whose last comma-separated value of the last line is not `chunked`. -/
+def teBad (h : Header) : Prop := index h kTE ≠ [] ∧ teLast h ≠ chunked
+
+/-- The framing modifier alone flags every request with conflicting Content-Length values or
+a Transfer-Encoding not ending in chunked. -/
+theorem framing_flagged (h : Header) (hb : clConflict h ∨ teBad h) : (framingHeader h).2 ≠ none := by
+  unfold framingHeader
+  cases hc : framingCL h with
+  | none => simp
+  | some h1 =>
+    rcases hb with hb | hb
+    · rw [framingCL_conflict hb] at hc; cases hc
+    · have hk := kne
+      have hi := (framingCL_some hc).1 kTE hk.2.2.2.2.2.2.2.2.2.2.2.2.2.2.2.2.2.2.2.1
+      have hp : index h1 kTE ≠ [] := by rw [hi]; exact hb.1
+      have hl : teLast h1 ≠ chunked := by unfold teLast; rw [hi]; exact hb.2
+      show (framingTE h1).2 ≠ none
+      rw [framingTE_bad hp hl]; simp
+
+/-- The framing clause for the whole stack, for one header. -/
+def FramingFlagged (env : Env) (h : Header) : Prop := clConflict h ∨ teBad h → (stackReq env h).2 ≠ []
+
+/-- PARTIAL (open finding F14b): inside the stack, conflicting Content-Length values are
+flagged (error `cl`, nothing skipped) provided Content-Length is not Connection-listed.
+Missing: Transfer-Encoding (always removed before the check) and Connection-listed
+Content-Length — `framing_counterexample_*` show the clause is false there. -/
+theorem framing_flagged_partial (env : Env) (h : Header) (hcl : kCL ∉ removedKeys h) (hc : clConflict h) :
+    (stackReq env h).2 = [.cl] ∧ (stackReq env h).1.skip = false := by
+  have hk := kne
+  have hclf : kCL ∉ fwdKeys := by
+    simp only [fwdKeys, List.mem_cons, List.not_mem_nil, or_false, not_or]
+    exact ⟨hk.2.2.2.2.2.2.2.2.2.2.2.1, hk.2.2.2.2.2.2.2.2.2.2.2.2.1, hk.2.2.2.2.2.2.2.2.2.2.2.2.2.1, hk.2.2.2.2.2.2.2.2.2.2.2.2.2.2.1⟩
+  have hi : index (fwdHeader env (removeHopByHop h)) kCL = index h kCL := by
+    rw [fwd_index_other hclf, kept_index hcl]
+  have hc' : clConflict (fwdHeader env (removeHopByHop h)) := by
+    unfold clConflict clTokens at hc ⊢
+    rw [hi]; exact hc
+  have hf : framingHeader (fwdHeader env (removeHopByHop h)) = (fwdHeader env (removeHopByHop h), some .cl) := by
+    unfold framingHeader; rw [framingCL_conflict hc']
+  rcases stackReq_cases env h with ⟨e, he, hr⟩ | ⟨he, _, _⟩ | ⟨he, _, _⟩
+  · rw [hr]; rw [hf] at he; injection he with he; subst he; exact ⟨rfl, rfl⟩
+  · rw [hf] at he; cases he
+  · rw [hf] at he; cases he
+
+/-! ## 5. open findings: concrete witnesses (decided by evaluation) -/
+
+def env0 : Env :=
+  { major := 1, minor := 1, name := strBytes "martian", boundary := strBytes "00", scheme := strBytes "http",
+    host := strBytes "example.com", url := strBytes "http://example.com/", remote := strBytes "192.0.2.1:4711" }
+
+/-- F14b: `Transfer-Encoding: gzip`. -/
+def hTE : Header := [(kTE, [strBytes "gzip"])]
+/-- F14b: `Connection: content-length` with `Content-Length: 5` and `Content-Length: 6`. -/
+def hCLListed : Header := [(kConnection, [strBytes "content-length"]), (kCL, [strBytes "5", strBytes "6"])]
+/-- F14b: `Connection: via` with a Via chain naming this instance. -/
+def hViaListed : Header := [(kConnection, [strBytes "via"]), (kVia, [strBytes "1.1 martian-00"])]
+/-- F14c: conflicting Content-Length and a Via chain naming this instance. -/
+def hLoopCL : Header := [(kCL, [strBytes "5", strBytes "6"]), (kVia, [strBytes "1.1 martian-00"])]
+
+theorem teBad_hTE : teBad hTE := by unfold teBad; decide
+theorem clConflict_hCLListed : clConflict hCLListed :=
+  ⟨strBytes "5", by decide, strBytes "6", by decide, by decide, by decide, by decide⟩
+
+/-- F14b witness 1: the framing modifier alone flags `hTE`, the stack does not. -/
+theorem framing_counterexample_te : (framingHeader hTE).2 = some .te ∧ ¬ FramingFlagged env0 hTE := by
+  refine ⟨by decide, ?_⟩
+  intro hf
+  exact hf (Or.inr teBad_hTE) (by decide)
+
+/-- F14b witness 2: Connection-listed Content-Length hides the conflict from the stack. -/
+theorem framing_counterexample_cl_listed :
+    (framingHeader hCLListed).2 = some .cl ∧ ¬ FramingFlagged env0 hCLListed := by
+  refine ⟨by decide, ?_⟩
+  intro hf
+  exact hf (Or.inl clConflict_hCLListed) (by decide)
+
+/-- F14b witness 3: Connection-listed Via hides the loop from the stack (the via modifier alone sees it). -/
+theorem loop_counterexample_via_listed :
+    (viaReq env0 { hdr := hViaListed }).2 = some .loop ∧ ¬ LoopStopped env0 hViaListed := by
+  refine ⟨by decide, ?_⟩
+  intro hf
+  have := (hf (by decide)).1
+  revert this
+  decide
+
+/-- F14c witness: the framing error pre-empts loop detection (first-error semantics). -/
+theorem loop_counterexample_after_framing_error : ¬ LoopStopped env0 hLoopCL := by
+  intro hf
+  have := (hf (by decide)).1
+  revert this
+  decide
+
+/-! ## 6. non-vacuity: the hypotheses above are satisfiable, the stack does all of it at once -/
+
+def hGood : Header := [(strBytes "Accept", [strBytes "a", strBytes "b"]), (kConnection, [strBytes " keep-alive ,X-CUSTOM", strBytes "close"]),
+  (strBytes "X-Custom", [strBytes "1"]), (strBytes "Keep-Alive", [strBytes "timeout=5"]), (kVia, [strBytes "1.0 fred", strBytes "1.1 p"]),
+  (kXFF, [strBytes "10.0.0.1"]), (kCL, [strBytes "5", strBytes "5"])]
+
+/-- Test (evaluation on one concrete header): forwarded without error; Keep-Alive, X-Custom and
+Connection are gone; Accept is untouched; Via and X-Forwarded-For were appended to. -/
+example : (stackReq env0 hGood).2 = [] ∧
+    keys (stackReq env0 hGood).1.hdr = [strBytes "Accept", kXFProto, kXFHost, kXFUrl, kXFF, kCL, kVia] ∧
+    index (stackReq env0 hGood).1.hdr (strBytes "Accept") = [strBytes "a", strBytes "b"] ∧
+    index (stackReq env0 hGood).1.hdr kVia = [strBytes "1.0 fred, 1.1 p, 1.1 martian-00"] ∧
+    index (stackReq env0 hGood).1.hdr kXFF = [strBytes "10.0.0.1, 192.0.2.1"] ∧
+    index (stackReq env0 hGood).1.hdr kCL = [strBytes "5"] := by decide
+
+/-- Hypotheses of `loop_stopped_partial` are satisfiable together with the loop premise. -/
+example : kVia ∉ removedKeys [(kVia, [strBytes "1.0 fred, 1.1 martian-00"])] ∧
+    stackFramingErr env0 [(kVia, [strBytes "1.0 fred, 1.1 martian-00"])] = none ∧
+    hasLoop (join (index [(kVia, [strBytes "1.0 fred, 1.1 martian-00"])] kVia) commaSp) (tag env0) = true := by decide
+
+/-- Hypotheses of `framing_flagged_partial` are satisfiable. -/
+example : kCL ∉ removedKeys [(kCL, [strBytes "5, 6"])] ∧ clConflict [(kCL, [strBytes "5, 6"])] :=
+  ⟨by decide, strBytes "5", by decide, strBytes " 6", by decide, by decide, by decide, by decide⟩
+
+/-- `connection_token_any_case` is not vacuous. -/
+example : toLower (strBytes "KEEP-alive") = toLower (strBytes "Keep-Alive") ∧
+    canonKey (strBytes "KEEP-alive") = strBytes "Keep-Alive" := by decide
+
+end Martian.Props.C14
